@@ -711,11 +711,16 @@ class RewriteRuleSet:
                         continue
                     initializers = graph_or_function.initializers
                     for initializer in delta.new_initializers:
-                        if initializer.name in initializers:
+                        existing = initializers.get(initializer.name)  # type: ignore[arg-type]
+                        if existing is not None and existing is not initializer:
+                            # Do not replace a different initializer that happens to have the
+                            # same name (it may still be in use): rename the new one.
                             if verbose:
                                 print(f"Initializer {initializer.name} already exists.")
-                            continue
-                    for initializer in delta.new_initializers:
+                            suffix = 1
+                            while f"{initializer.name}_{suffix}" in initializers:
+                                suffix += 1
+                            initializer.name = f"{initializer.name}_{suffix}"
                         initializers[initializer.name] = initializer  # type: ignore[index]
                 # TODO: This does not yet handle the problem of determining the correct insertion point
                 # for inserted nodes in the case of patterns with multiple output-nodes. The following
